@@ -100,6 +100,14 @@ def joinWith (sep : Byte) : List Bytes → Bytes
   | [w] => w
   | w :: rest => w ++ sep :: joinWith sep rest
 
+/-- `splitN` (types.go): pieces of `n` octets; the loop stops at the first piece that is shorter — an empty one when the
+    length is a multiple of `n` -/
+def splitLoop (n : Nat) : (fuel : Nat) → Bytes → List Bytes
+  | 0, s => [s]
+  | f + 1, s => if n ≤ s.length then s.take n :: splitLoop n f (s.drop n) else [s]
+
+def splitN (s : Bytes) (n : Nat) : List Bytes := if s.length < n then [s] else splitLoop n (s.length + 1) s
+
 def printHexGroups (digits group sep : Nat) (upper : Bool) (v : Nat) : Bytes :=
   joinWith (UInt8.ofNat sep) (groupsOf group (digits + 1) (hexFixed upper digits v))
 
@@ -218,6 +226,7 @@ def printStep : TStep → List TVal → Option (Bytes × List TVal)
   | .txt, .ss strs :: vs => some (sprintTxt strs, vs)
   | .txtPair, .s a :: .s b :: vs => some (sprintTxt [a, b], vs)
   | .txtFirst, .s a :: vs => some (sprintTxt [a], vs)
+  | .endStrSplit n, .s t :: vs => some (joinWith 32 (splitN t n), vs)
   | .typeList, .nl ts :: vs => some (typesText ts, vs)
   | .ipv4, .s a :: vs => if a.length = 4 then some (printIPv4 a, vs) else none
   | .salt, .s t :: vs => some (if t.isEmpty then [45] else upperAscii t, vs)
@@ -382,5 +391,6 @@ def parsePlan (origin : Bytes) : List TStep → List Tok → List TVal → Optio
   | .slurp :: _, ts, acc => if slurpRemainder ts then some acc else none
   | .other :: _, _, _ => none
   | .hexGroups _ _ _ _ :: _, _, _ => none      -- a printer's step
+  | .endStrSplit _ :: _, _, _ => none           -- a printer's step
 
 end Dns.TextCodec
